@@ -71,6 +71,11 @@ func (r *RTPBuffer) Add(packet *RetainablePacket) {
 			r.packets[idx] = nil
 		}
 		r.highestAdded = seq
+	} else if r.highestAdded-seq >= r.size {
+		// older than the window: its slot belongs to a newer packet
+		packet.Release()
+
+		return
 	}
 
 	idx := seq % r.size
